@@ -159,6 +159,25 @@ theorem charge_ge_eaten (biofuel eaten increase maxB maxF avail : K) :
     eaten ≤ (Handoff.bump1 biofuel eaten increase maxB maxF avail).2 :=
   (C18.bump_never_lowers biofuel eaten increase maxB maxF avail).2
 
+/-- the per-head yields are positive for positive carcass weights (so more slaughter is more meat),
+    and an override of the large-animal carcass weight changes the large class only -/
+theorem perHead_pos (kc kp : K) (ov : Option K) (hc : 0 < kc) (hp : 0 < kp) (ho : ∀ v, ov = some v → 0 < v) :
+    let k := perHeadOf kc kp ov
+    0 < k.chicken ∧ 0 < k.pig ∧ 0 < k.small ∧ 0 < k.medium ∧ 0 < k.large := by
+  cases ov with
+  | none => simp only [perHeadOf]; norm_num; exact ⟨by positivity, by positivity⟩
+  | some v =>
+    have hv := ho v rfl
+    simp only [perHeadOf]; norm_num; exact ⟨by positivity, by positivity, by positivity⟩
+
+theorem perHead_override_frame (kc kp v : K) :
+    (perHeadOf kc kp (some v)).chicken = (perHeadOf kc kp none).chicken ∧
+    (perHeadOf kc kp (some v)).pig = (perHeadOf kc kp none).pig ∧
+    (perHeadOf kc kp (some v)).small = (perHeadOf kc kp none).small ∧
+    (perHeadOf kc kp (some v)).medium = (perHeadOf kc kp none).medium ∧
+    (perHeadOf kc kp (some v)).large = 2750 * v / 1000000000 := by
+  simp only [perHeadOf]; norm_num
+
 /-! ## the species table as it is now (regenerated from `species_attributes.csv`) -/
 
 /-- every species of the table falls into exactly one slaughter class, types are distinct, and at
